@@ -138,7 +138,7 @@ var clauseKeywords = map[string]bool{
 	"tags": true, "safetytags": true, "requires": true, "ensures": true, "atrelease": true, "modifies": true, "loop": true, "invariant": true,
 	"trusted": true, "pure": true, "safety": true, "nosafety": true, "inline": true, "acquires": true, "releases": true,
 	"site": true, "params": true, "hyp": true, "show": true, "vars": true, "smt": true, "protects": true, "inv": true, "guar": true,
-	"havoc": true, "ghostflag": true, "dyncall": true, "rely": true, "nolockif": true, "loopmodifies": true, "assume": true, "trust": true, "use": true,
+	"havoc": true, "ghostflag": true, "dyncall": true, "rely": true, "nolockif": true, "owns": true, "loopmodifies": true, "assume": true, "trust": true, "use": true,
 }
 var declKeywords = map[string]bool{
 	"func": true, "spec": true, "immutable": true, "monitor": true, "lemma": true, "structinv": true, "global": true, "axiom": true, "order": true, "libspec": true, "iface": true,
@@ -363,7 +363,7 @@ func parseContractFile(path, pkg string) (*ContractFile, error) {
 						return nil, err
 					}
 					curF.Sites = append(curF.Sites, &SiteSpec{Kind: kind, Pattern: pat, Label: c.Label, Tags: c.Tags, Text: c.Text, Expr: c.Expr, Line: it.line})
-				case "assume", "trust", "rely", "nolockif":
+				case "assume", "trust", "rely", "nolockif", "owns":
 					c, err := mkClause(it.kw, it.text, it.line)
 					if err != nil {
 						return nil, err
